@@ -54,6 +54,43 @@ def job_broadcast(job):
             out['failures'].append({'config': cfg, 'what': 'constructing an admissible algebra raised', 'error': type(_e).__name__ + ': ' + str(_e)[:150]})
             continue
         out['configs'] += 1
+        # (0) operands backed by ONE ndarray each, same keys, different trailing shapes (a cloud of N elements and one constant
+        # element): every operator acts coefficient-wise, the coefficient axis of one operand never meets the element axis of the other
+        from kingdon.multivector import MultiVector as _MV
+        vk = tuple(alg.indices_for_grades[(1,)]) or (0,)
+        nk = len(vk)
+        for N in (nk, 1, nk + 1):
+            Xv = np.array([[float(rng.randint(-4, 4) or 1) + 10 * i + j for j in range(N)] for i in range(nk)])
+            Yv = np.array([float(100 * (i + 1)) for i in range(nk)])
+            for name in ['add', 'sub', 'gp', 'op']:
+                for order in ('cloud-first', 'constant-first'):
+                    X, Y = _MV.fromkeysvalues(alg, vk, Xv.copy()), _MV.fromkeysvalues(alg, vk, Yv.copy())
+                    out['evaluations'] += 1
+                    infix = {'add': lambda p_, q_: p_ + q_, 'sub': lambda p_, q_: p_ - q_, 'gp': lambda p_, q_: p_ * q_, 'op': lambda p_, q_: p_ ^ q_}[name]
+                    res = _safe(lambda: infix(X, Y) if order == 'cloud-first' else infix(Y, X))
+                    if res[0] != 'value':
+                        fail({'config': cfg, 'op': name, 'what': 'operator raised on ndarray-backed operands of different trailing shapes', 'error': res[1],
+                              'shapes': [list(Xv.shape), list(Yv.shape)], 'order': order})
+                        continue
+                    for j in range(N):
+                        xj, y = mv_from(alg, vk, [float(v) for v in Xv[:, j]]), mv_from(alg, vk, [float(v) for v in Yv])
+                        want = todict(getattr(alg, name)(xj, y) if order == 'cloud-first' else getattr(alg, name)(y, xj))
+                        got = {}
+                        bad = False
+                        for k, v in todict(res[1]).items():
+                            a_ = np.asarray(v)
+                            if a_.shape == ():
+                                got[k] = float(a_)
+                            elif a_.shape == (N,):
+                                got[k] = float(a_[j])
+                            else:
+                                bad = True
+                        want = {k: float(v) for k, v in want.items() if abs(float(v)) > 1e-12}
+                        got = {k: v for k, v in got.items() if abs(v) > 1e-12}
+                        if bad or set(got) != set(want) or any(abs(got[k] - want[k]) > 1e-9 for k in want):
+                            fail({'config': cfg, 'op': name, 'what': 'operator on ndarray-backed operands of different trailing shapes is not element-wise',
+                                  'shapes': [list(Xv.shape), list(Yv.shape)], 'order': order, 'element': j, 'got': str(got)[:200], 'expected': str(want)[:200]})
+                            break
         for it in range(cfg.get('random', 4)):
             ak, bk = rand_keys(rng, alg, 'sparse'), rand_keys(rng, alg, 'sparse')
             shape = rng.choice([(3,), (2, 3)])
